@@ -9,11 +9,26 @@ import sys
 import time
 
 VERIF = os.path.dirname(os.path.dirname(os.path.abspath(__file__)))
-MODULES = ["contracts.c04_periods", "contracts.engine", "contracts.c03_requests", "contracts.c06_parameters", "contracts.c16_set_input"]
+MODULES = ["contracts.c04_periods", "contracts.engine", "contracts.c03_requests", "contracts.c06_parameters", "contracts.c16_set_input", "contracts.c13_clone"]
 
 CAL_THEORY = "calendar (OM/DIM opaque, lemma instances; closed forms = Hinnant days-from-civil), validated against datetime"
 
 PROPS = {
+    "C13": {
+        "theories": ["heap model: objects with concrete identity and symbolic contents; ownership declaration of DESIGN 4 C13"],
+        "lemmas": [],
+        "validations": [],
+        "assumptions": [
+            "ownership: a holder owns its storages and their tables, a population its holders table, a simulation its populations "
+            "table, mark set and tracer; variables, entities, membership arrays and stored value arrays are shared immutables "
+            "(the engine never writes them in place)",
+            "heap shape: one person population with two holders (memory only, disk backed) and one group population with one holder; "
+            "tables are iterated by unrolling (the clone code treats every entry alike)",
+            "non-interference of later operation sequences follows from disjoint owned footprints only for mutators that write "
+            "inside their owner's footprint (Holder._set/delete_arrays, storage put/delete, purge): their frames are proved under C17/C18",
+        ],
+        "not_decided": ["files of a disk-backed storage are shared by path (the OS-level state is outside the heap model)"],
+    },
     "C16": {
         "theories": [CAL_THEORY, "numpy array algebra (closures over one symbolic entity index); ghost partial sums with one-step unfolding"],
         "lemmas": [],
